@@ -75,8 +75,19 @@ def run(R):
     def excluded(f):
         return any(f.spath.startswith(m) or (f.impl_self or "").startswith(m) for m in excluded_mods)
 
+    from . import rules_sites
+    root_fns = rules_sites.roots(R, "EXEC") + rules_sites.roots(R, "PARSE")
+    mainf = P.fn("sqlgrep::main", "bin")
+    if mainf is None:
+        raise EngineError("bin target has no main")
+    root_fns.append(mainf)
+    live = P.reachable(root_fns)
     n_fn = 0
+    n_dead = 0
     for f in sorted(P.fns.values(), key=lambda f: f.key):
+        if f.key not in live:
+            n_dead += 1
+            continue
         n_fn += 1
         for c in f.calls:
             name = c.name
@@ -163,6 +174,8 @@ def run(R):
                                     % (f.path, cf.path), [cf.loc()], {"allowed": e["callers_allowed"]})
     # hash-iterator `next` outside any tabled site (iterator obtained some other way)
     for f in P.fns.values():
+        if f.key not in live:
+            continue
         for c in f.calls:
             if HASH_ITER_NEXT.match(c.name):
                 # must have an entry site in the same function
@@ -197,7 +210,7 @@ def run(R):
                                     [a["span"]["file"] + ":%d" % a["span"]["line"]])
     R.assume("dependencies (regex, serde_json with preserve_order, chrono, fnv) are deterministic functions of their inputs")
     R.assume("closures are called only by the function that builds them or its callees; checked: no dyn/fn-pointer calls")
-    R.note("functions scanned: %d (lib + bin, all bodies, not only those reachable from the entry points)" % n_fn)
+    R.note("functions scanned: %d reachable from main / the execution and parsing entry points; %d unreachable bodies skipped" % (n_fn, n_dead))
     R.floor("C18.sources", table["floor_sources"])
 
 
